@@ -759,7 +759,7 @@ open Redb.Key Redb.Spec Redb.BTree
 /-! ## 6. binding (C12): equal checksums ⇒ equal covered bytes ⇒ equal trees -/
 
 /-- the standard idealisation of the hash: no two byte strings share a checksum. Always an explicit
-hypothesis, never an axiom. -/
+hypothesis, never assumed globally. -/
 abbrev HashInjective : Prop := Function.Injective (fun (b : ByteArray) => Redb.Xxh3.checksum b)
 
 /-- the bytes of page `pn` covered by its checksum: `page[0 .. used]`, where `used` is
@@ -1655,5 +1655,33 @@ theorem RootChecked.pages_mem {img : ByteArray} {lay : Layout} {kt : KT} {kw vw 
     cases h1
     exact hf.mem
 
+
+/-! ## `ByteArray.toList` in terms of lists (used by the concrete examples) -/
+
+theorem toList_loop (bs : ByteArray) (i : Nat) (r : List UInt8) :
+    ByteArray.toList.loop bs i r = r.reverse ++ bs.data.toList.drop i := by
+  fun_induction ByteArray.toList.loop bs i r with
+  | case1 i r h ih =>
+    rw [ih]
+    have hi : i < bs.data.toList.length := h
+    rw [List.drop_eq_getElem_cons hi]
+    have hg : bs.get! i = bs.data.toList[i] := by
+      show bs.data[i]! = _
+      rw [getElem!_pos bs.data i h]
+      rfl
+    rw [hg, List.reverse_cons, List.append_assoc]
+    rfl
+  | case2 i r h =>
+    have : bs.data.toList.length ≤ i := Nat.le_of_not_lt h
+    rw [List.drop_eq_nil_of_le this, List.append_nil]
+
+theorem byteArray_toList (bs : ByteArray) : bs.toList = bs.data.toList := by
+  rw [ByteArray.toList, toList_loop]; rfl
+
+theorem extract_toByteArray_toList (l : Bytes) (a b : Nat) :
+    ((l.toByteArray).extract a b).toList = (l.take b).drop a := by
+  rw [byteArray_toList, ByteArray.data_extract, List.data_toByteArray]
+  simp only [List.extract_toArray, List.extract_eq_take_drop, List.toList_toArray]
+  rw [List.drop_take]
 
 end Redb.Format
